@@ -17,7 +17,7 @@ from .world import HOOKS, pack, unpack
 
 
 class Snap:
-    __slots__ = ("blob", "ledger_len", "ec", "step", "action", "k", "inflight", "bus_len", "bus_pre", "tag")
+    __slots__ = ("blob", "ledger_len", "ec", "step", "action", "k", "inflight", "bus_len", "bus_pre", "tag", "tlen")
 
 
 class CrashEngine:
@@ -44,6 +44,7 @@ class CrashEngine:
             s.ledger_len = base_ledger_len + len(w.ledger)
             s.ec = dict(w.exec_counts)
             s.step, s.action, s.k = step_no, action[0], counter[0]
+            s.tlen = len(st.trace)  # actions of the run that precede the one in flight
             s.inflight = action[0]
             s.bus_len = len(w.bus_log)
             s.bus_pre = pre[0]
@@ -116,6 +117,7 @@ class CrashEngine:
         return st, ledger, snaps
 
     mon_violations = []
+    budget_at = None
 
     def baseline(self, record_start=False):
         self.mon_violations = []
@@ -132,6 +134,7 @@ class CrashEngine:
                 s.ledger_len, s.ec, s.step, s.action, s.k = 0, {}, -1, "start:Orchestrator.start", len(start_snaps)
                 s.inflight, s.bus_len = s.action, len(w.bus_log)
                 s.bus_pre = s.bus_len
+                s.tlen = 0
                 start_snaps.append(s)
 
             HOOKS.on_commit = on_commit
@@ -165,6 +168,8 @@ class CrashEngine:
             mon[m.name] = m.init(self.ex)
         budget = dict(self.ex.budget0)
         budget["sweep"] = 2
+        if self.budget_at is not None:
+            budget.update(self.budget_at(snap) or {})  # e.g. an operator action already contained in this image
         return State(pack(w.image()), view, mon, budget, ("crash@%d.%d:%s" % (snap.step, snap.k, snap.action),))
 
     def recover(self, snap, order, ec=None, record=False, sweeps=1):
